@@ -305,6 +305,15 @@ def op_wsum(c, o):
     return out if snap(r) == before else ["mutated", "operand changed"]
 
 
+def op_astype(c, o):
+    dt, seq, to = c[1], c[2], c[3]
+    r = mk_rl(dt, seq, o.get("via", "from_array"))
+    before = snap(r)
+    res = r.astype(RAW_NP[to])
+    out = proj(res)
+    return out if snap(r) == before else ["mutated", "operand changed"]
+
+
 def op_hist(c, o):
     """np.histogram(rla) must equal np.histogram(decoded array): the oracle is numpy itself, as the property states"""
     dt, seq, bins = c[1], c[2], c[3]
@@ -396,7 +405,7 @@ def op2_concat(c, o):
     return proj(res)
 
 
-OPS = {"rl_roundtrip": op_roundtrip, "rl_getitem": op_getitem, "rl_ufunc": op_ufunc, "rl_reduce": op_reduce, "rl_wsum": op_wsum, "rl_hist": op_hist,
+OPS = {"rl_roundtrip": op_roundtrip, "rl_getitem": op_getitem, "rl_ufunc": op_ufunc, "rl_reduce": op_reduce, "rl_astype": op_astype, "rl_wsum": op_wsum, "rl_hist": op_hist,
        "rl_concat": op_concat, "rl2_getitem": op2_getitem, "rl2_func": op2_func, "rl2_ufunc": op2_ufunc, "rl2_concat": op2_concat}
 
 
